@@ -234,6 +234,8 @@ void Sim::run()
 {
 	std::vector<Task*> runnable;
 	uint64_t abort_steps = 0;
+	struct Joiner { Sim *s; ~Joiner() { for (size_t i = 0; i < s->tasks.size(); i++)
+		if (s->tasks[i]->state == Task::DONE && s->tasks[i]->th.joinable()) s->tasks[i]->th.join(); } } joiner = { this };
 	for (;;)
 	{
 		run_due_events();
